@@ -12,7 +12,8 @@ ON = [icontract.InvariantCheckEvent.CALL, icontract.InvariantCheckEvent.SETATTR,
 STEPS = ["subclass_plain", "subclass_override_pre_post", "subclass_own_invariant", "subclass_override_snapshot_post",
          "class_two_bases", "decorate_fresh_function", "decorate_same_bare_again", "subclass_override_bare",
          "class_with_mixin_own_invariant", "subclass_property_new_setter", "subclass_property_new_getter",
-         "posthoc_require_on_bare_override", "subclass_aliases_base_function", "two_bases_property_accessor_reuse"]
+         "posthoc_require_on_bare_override", "subclass_aliases_base_function", "two_bases_property_accessor_reuse",
+         "posthoc_require_on_bare_property_override"]
 
 
 class World:
@@ -126,8 +127,30 @@ class World:
                 # a subclass overrides m without own contracts; a precondition is added to that override afterwards
                 n = self.fresh_name("S")
                 cls = self.new_class(n, (base,), override=True)
-                cls.m = icontract.require(self.cond(n + ".pre", ("x",)), error=self.err(n + ".pre"))(cls.m)
                 classes.append(cls)
+                try:
+                    cls.m = icontract.require(self.cond(n + ".pre", ("x",)), error=self.err(n + ".pre"))(cls.m)
+                except AssertionError:
+                    # the library refuses (by an assertion) to add a precondition to a member which already carries
+                    # several merged groups; that is a refusal of this step, everything else must still be unchanged
+                    return "rejected:AssertionError"
+            elif what == "posthoc_require_on_bare_property_override":
+                # a subclass re-defines the accessors of p with new functions and no contracts of their own; a precondition is
+                # added to the new getter (k even) or setter (k odd) afterwards
+                n = self.fresh_name("S")
+
+                def own_get(self: Any) -> Any:
+                    return 4
+
+                def own_set(self: Any, value: Any) -> None:
+                    return None
+                cls = icontract.DBCMeta(n, (base,), {"p": property(own_get, own_set)})
+                classes.append(cls)
+                acc = cls.__dict__["p"].fget if k % 2 == 0 else cls.__dict__["p"].fset
+                try:
+                    icontract.require(self.cond(n + ".pre", ("self",)), error=self.err(n + ".pre"))(acc)
+                except AssertionError:
+                    return "rejected:AssertionError"  # (see posthoc_require_on_bare_override)
             elif what == "subclass_aliases_base_function":
                 # class R(base, Other): m = base.m   where Other.m has no preconditions
                 other = icontract.DBCMeta(self.fresh_name("Other"), (icontract.DBC,), {"m": (lambda self, x: "other")})
@@ -285,7 +308,8 @@ def harnesses(tier: str) -> List[H]:
         for k0 in range(len(STEPS)):
             params = [I("j0", 0, 0), I("c0", 0, 2)]
             for i in range(1, nsteps):
-                params += [I("k%d" % i, 0, len(STEPS) - 1), I("j%d" % i, 0, i), I("c%d" % i, 0, 2)]
+                # quick tier: the later steps choose between CALL and SETATTR only (ALL is in the thorough tier)
+                params += [I("k%d" % i, 0, len(STEPS) - 1), I("j%d" % i, 0, i), I("c%d" % i, 0, 1 if tier == "quick" else 2)]
             params += [B("ta_inv"), B("ts_inv")]
             defaults = {"a_on": a_on, "nsteps": nsteps, "k0": k0, "ta_pre": True, "ta_post": True, "tf_pre": True,
                         "ts_pre": True}  # type: Dict[str, Any]
